@@ -62,7 +62,7 @@ pub fn consts(machines: &[(&dyn Machine, &MachineSpec)], full_n: u32, threads: u
 
 fn consts_one(m: &dyn Machine, ms: &MachineSpec, full_n: u32, rep: &mut Report) {
     rep.machines += 1;
-    let mut viol = |rep: &mut Report, what: &str, trace: Vec<Step>, e: Expect, obs: String| {
+    let viol = |rep: &mut Report, what: &str, trace: Vec<Step>, e: Expect, obs: String| {
         rep.violation_count += 1;
         rep.per_family.entry(ms.family.clone()).or_default().violations += 1;
         if rep.violations.len() < 40 {
@@ -158,6 +158,51 @@ fn native_align(size: usize) -> usize {
 }
 
 /// Execute one stored trace as a plain program and compare the last observation.
+pub fn replay_enum(ems: &[(&dyn crate::machine::EnumMachine, &EnumSpec)], path: &str) -> Report {
+    let start = Instant::now();
+    let text = std::fs::read_to_string(path).expect("read replay file");
+    let v: Violation = serde_json::from_str(&text).expect("parse replay file");
+    let m = ems[0].0;
+    let mut rep = Report { mode: "replay".into(), exhaustive: true, machines: 1, ..Default::default() };
+    let run = || -> String {
+        let mut last: u128 = 0;
+        for st in &v.trace {
+            let r = call(|| match st.op.as_str() {
+                "from_raw" => m.from_raw(st.v.0),
+                "to_raw" => m.to_raw(st.f),
+                "from_raw_of_last" => m.from_raw(last),
+                "to_raw_of_last" => m.to_raw(last as usize),
+                "returns_result" => m.returns_result() as u128,
+                "raw_size" => m.raw_size() as u128,
+                other => panic!("unknown op {other}"),
+            });
+            match r {
+                Ok(x) => last = x,
+                Err(_) => return "Panicked".into(),
+            }
+        }
+        format!("{last:#x}")
+    };
+    let first = run();
+    let second = run();
+    if first != second {
+        rep.extra.insert("nondeterministic".into(), serde_json::json!(true));
+    }
+    rep.transitions = 2 * v.trace.len() as u64;
+    rep.states = v.trace.len() as u64;
+    rep.compared = 1;
+    let ok = match v.expect.kind.as_str() {
+        "value" => first == format!("{:#x}", v.expect.value.0),
+        "panic" => first == "Panicked",
+        "nopanic" => first != "Panicked",
+        _ => false,
+    };
+    rep.extra.insert("observed".into(), serde_json::json!(first));
+    rep.extra.insert("reproduces".into(), serde_json::json!(!ok));
+    rep.wall_s = start.elapsed().as_secs_f64();
+    rep
+}
+
 pub fn replay(machines: &[(&dyn Machine, &MachineSpec)], path: &str) -> Report {
     let start = Instant::now();
     let text = std::fs::read_to_string(path).expect("read replay file");
@@ -256,4 +301,191 @@ pub fn replay(machines: &[(&dyn Machine, &MachineSpec)], path: &str) -> Report {
     let _ = ms;
     rep.wall_s = start.elapsed().as_secs_f64();
     rep
+}
+
+// ------------------------------------------------------------------------------------------------
+// C07: bitenum conversions
+
+use crate::machine::EnumMachine;
+
+fn enum_raw_alphabet(n: u32, discs: &[u128]) -> Vec<u128> {
+    let m = mask(n);
+    let mut a = alpha(n);
+    for &d in discs {
+        a.push(d);
+        a.push(d.wrapping_add(1) & m);
+        a.push(d.wrapping_sub(1) & m);
+    }
+    for k in 0..n {
+        a.push(((1u128 << k) - 1) & m);
+    }
+    dedup_keep_order(a)
+}
+
+pub fn enums(ems: &[(&dyn EnumMachine, &EnumSpec)], full_n: u32, threads: usize) -> Report {
+    let start = Instant::now();
+    let mut rep = Report { mode: "enum".into(), exhaustive: true, ..Default::default() };
+    let next = std::sync::atomic::AtomicUsize::new(0);
+    let parts: Vec<Report> = std::thread::scope(|sc| {
+        let hs: Vec<_> = (0..threads.max(1))
+            .map(|_| {
+                sc.spawn(|| {
+                    let mut rep = Report::default();
+                    loop {
+                        let i = next.fetch_add(1, std::sync::atomic::Ordering::Relaxed);
+                        if i >= ems.len() {
+                            break;
+                        }
+                        enum_one(ems[i].0, ems[i].1, full_n, &mut rep, i);
+                    }
+                    rep
+                })
+            })
+            .collect();
+        hs.into_iter().map(|h| h.join().unwrap()).collect()
+    });
+    for p in parts {
+        rep.machines += p.machines;
+        rep.fields += p.fields;
+        rep.states += p.states;
+        rep.transitions += p.transitions;
+        rep.compared += p.compared;
+        rep.distinct_outcomes += p.distinct_outcomes;
+        rep.violation_count += p.violation_count;
+        for v in p.violations {
+            if rep.violations.len() < 40 {
+                rep.violations.push(v);
+            }
+        }
+        for s in p.samples {
+            if rep.samples.len() < 6 {
+                rep.samples.push(s);
+            }
+        }
+        for (k, v) in p.per_family {
+            let e = rep.per_family.entry(k).or_default();
+            e.fields += v.fields;
+            e.transitions += v.transitions;
+            e.states += v.states;
+            e.violations += v.violations;
+        }
+    }
+    rep.wall_s = start.elapsed().as_secs_f64();
+    rep
+}
+
+fn enum_violation(es: &EnumSpec, what: &str, trace: Vec<Step>, e: Expect, obs: String) -> Violation {
+    let ms = MachineSpec {
+        name: es.name.clone(),
+        n: es.n,
+        fields: vec![],
+        default: None,
+        has_builder: false,
+        debug: false,
+        family: format!("ENUM{}", es.n),
+        passes: vec![],
+        head: es.text.clone(),
+        py: serde_json::json!({"enum": es}),
+    };
+    Violation {
+        what: what.into(),
+        machine: es.name.clone(),
+        head: es.text.clone(),
+        field_text: String::new(),
+        family: ms.family.clone(),
+        trace,
+        expect: e,
+        observed: obs,
+        spec: ms,
+    }
+}
+
+fn enum_one(m: &dyn EnumMachine, es: &EnumSpec, full_n: u32, rep: &mut Report, i: usize) {
+    rep.machines += 1;
+    rep.fields += es.discs.len() as u64;
+    let fam_name = format!("ENUM{}:{}", es.n, es.exhaustive);
+    let t0 = rep.transitions;
+    let v0 = rep.violation_count;
+    let discs: Vec<u128> = es.discs.iter().map(|h| h.0).collect();
+    let push = |rep: &mut Report, v: Violation| {
+        rep.violation_count += 1;
+        if rep.violations.len() < 40 {
+            rep.violations.push(v);
+        }
+    };
+    // static facts
+    rep.transitions += 2;
+    rep.compared += 2;
+    let want_result = es.exhaustive != "true";
+    if m.returns_result() != want_result {
+        push(rep, enum_violation(es, "enum_result_type", vec![Step::op("returns_result", 0, 0, 0)], expect_value(want_result as u128), format!("{}", m.returns_result())));
+    }
+    let st = storage(es.n) as usize / 8;
+    if m.raw_size() != st {
+        push(rep, enum_violation(es, "enum_storage", vec![Step::op("raw_size", 0, 0, 0)], expect_value(st as u128), format!("{}", m.raw_size())));
+    }
+    // variant -> raw, and back
+    for (vi, &d) in discs.iter().enumerate() {
+        rep.transitions += 2;
+        rep.compared += 2;
+        match call(|| m.to_raw(vi)) {
+            Ok(r) if r == d => {}
+            Ok(r) => push(rep, enum_violation(es, "enum_to_raw", vec![Step::op("to_raw", vi, 0, 0)], expect_value(d), format!("{r:#x}"))),
+            Err(_) => push(rep, enum_violation(es, "panic", vec![Step::op("to_raw", vi, 0, 0)], expect_value(d), "Panicked".into())),
+        }
+        match call(|| m.from_raw(m.to_raw(vi))) {
+            Ok(r) if r == vi as u128 => {}
+            Ok(r) => push(rep, enum_violation(es, "enum_roundtrip", vec![Step::op("to_raw", vi, 0, 0), Step::op("from_raw_of_last", 0, 0, 0)], expect_value(vi as u128), format!("{r:#x}"))),
+            Err(_) => push(rep, enum_violation(es, "panic", vec![Step::op("to_raw", vi, 0, 0), Step::op("from_raw_of_last", 0, 0, 0)], expect_value(vi as u128), "Panicked".into())),
+        }
+    }
+    // raw -> variant over the raw alphabet
+    let index_of: std::collections::HashMap<u128, usize> = discs.iter().enumerate().map(|(i, &d)| (d, i)).collect();
+    let n_states: u128 = if es.n <= full_n { 1u128 << es.n } else { 0 };
+    let list = if n_states == 0 { enum_raw_alphabet(es.n, &discs) } else { vec![] };
+    let total = if n_states == 0 { list.len() as u128 } else { n_states };
+    let mut distinct = std::collections::HashSet::new();
+    let mut k = 0u128;
+    while k < total {
+        let x = if n_states == 0 { list[k as usize] } else { k };
+        k += 1;
+        rep.states += 1;
+        rep.transitions += 1;
+        rep.compared += 1;
+        let want = match index_of.get(&x) {
+            Some(&vi) => vi as u128,
+            None => ERR_FLAG | x,
+        };
+        match call(|| m.from_raw(x)) {
+            Ok(r) => {
+                if distinct.len() < 4096 {
+                    distinct.insert(r);
+                }
+                if r != want {
+                    push(rep, enum_violation(es, "enum_from_raw", vec![Step::op("from_raw", 0, 0, x)], expect_value(want), format!("{r:#x}")));
+                } else if r & ERR_FLAG == 0 {
+                    // and back
+                    rep.transitions += 1;
+                    rep.compared += 1;
+                    match call(|| m.to_raw(r as usize)) {
+                        Ok(b) if b == x => {}
+                        Ok(b) => push(rep, enum_violation(es, "enum_roundtrip", vec![Step::op("from_raw", 0, 0, x), Step::op("to_raw_of_last", 0, 0, 0)], expect_value(x), format!("{b:#x}"))),
+                        Err(_) => push(rep, enum_violation(es, "panic", vec![Step::op("from_raw", 0, 0, x), Step::op("to_raw_of_last", 0, 0, 0)], expect_value(x), "Panicked".into())),
+                    }
+                }
+            }
+            Err(_) => push(rep, enum_violation(es, "panic", vec![Step::op("from_raw", 0, 0, x)], expect_value(want), "Panicked".into())),
+        }
+    }
+    rep.distinct_outcomes += distinct.len() as u64;
+    if rep.samples.len() < 6 && i % 97 == 0 {
+        let x = if n_states == 0 { list[list.len() / 2] } else { n_states / 2 };
+        rep.samples.push(serde_json::json!({"decl": es.text, "trace": format!("new_with_raw_value({x:#x})"),
+            "expected_and_observed": match index_of.get(&x) { Some(vi) => format!("variant #{vi}"), None => format!("Err({x:#x})") }}));
+    }
+    let fam = rep.per_family.entry(fam_name).or_default();
+    fam.fields += 1;
+    fam.states += total as u64;
+    fam.transitions += rep.transitions - t0;
+    fam.violations += rep.violation_count - v0;
 }
